@@ -339,3 +339,194 @@ def check_C20(tier, only):
     out.assumptions = ['reals instead of f64 rounding', 'sqrt/ln/atan uninterpreted with axiom instances sqrt(x)>=0, x>=0 => sqrt(x)^2=x, x>=1 => sqrt(x)>=1, y>=1 => ln y>=0, y>=0 => atan y>=0',
                        'glue: ndarray mapv_inplace(f) replaces every element x by f(x)', 'only the loss-closed-form clause of C20 is decided here (transport/estimator data-set clauses: see DESIGN.md)']
     return out.finish()
+
+
+# ------------------------------------------------------------------------------------------------
+# C16 (volume clause): sum of the grid's own integration weights = Axis::volume()   (E-M leaf kernels)
+# ------------------------------------------------------------------------------------------------
+def _linform(t):
+    """term -> ({var: coef}, const) if it is an affine form with rational coefficients, else None"""
+    from fractions import Fraction
+    k = t[0]
+    if k == 'const': return {}, t[1]
+    if k == 'iconst': return {}, Fraction(t[1])
+    if k == 'var': return {t[1]: Fraction(1)}, Fraction(0)
+    if k == 'i2f': return _linform(t[1])
+    if k == 'neg':
+        a = _linform(t[1])
+        return None if a is None else ({v: -c for v, c in a[0].items()}, -a[1])
+    if k in ('add', 'sub', 'iadd', 'isub'):
+        a, b = _linform(t[1]), _linform(t[2])
+        if a is None or b is None: return None
+        sgn = 1 if k in ('add', 'iadd') else -1
+        d = dict(a[0])
+        for v, c in b[0].items(): d[v] = d.get(v, 0) + sgn * c
+        return d, a[1] + sgn * b[1]
+    if k in ('mul', 'imul'):
+        a, b = _linform(t[1]), _linform(t[2])
+        if a is None or b is None: return None
+        if not a[0]: return {v: c * a[1] for v, c in b[0].items()}, a[1] * b[1]
+        if not b[0]: return {v: c * b[1] for v, c in a[0].items()}, a[1] * b[1]
+        return None
+    return None
+
+
+def _exp_to_powers(t):
+    """exp(c * alpha) with integer c  ->  E_alpha^c  (exp is a homomorphism; E_alpha = exp(alpha) > 0)"""
+    if not isinstance(t, tuple): return t
+    if t[0] == 'un' and t[1] == 'exp':
+        lf = _linform(t[2])
+        if lf is not None and lf[1] == 0 and len([v for v, c in lf[0].items() if c != 0]) <= 1:
+            nz = [(v, c) for v, c in lf[0].items() if c != 0]
+            if not nz: return ('const', __import__('fractions').Fraction(1))
+            v, c = nz[0]
+            if c.denominator == 1:
+                return ('powi', ('var', 'E_' + v), int(c))
+        return ('un', 'exp', _exp_to_powers(t[2]))
+    return tuple(_exp_to_powers(x) if isinstance(x, tuple) else x for x in t)
+
+
+def check_C16(tier, only):
+    import mir, mirfloat
+    from mirfloat import Interp, Struct, Enum, Closure
+    out = Outcome('C16', tier, 'proof')
+    cov = {'obligations': 0, 'discharged': 0, 'samples': [], 'trusted_base': ['rustc nightly -Zunpretty=mir', '/verif/lib/mirfloat.py (MIR -> real terms)', 'z3 (QF_NRA)'],
+           'checker_cmd': 'z3 -T:60 <obligation>.smt2 (tactic portfolio)'}
+    ns = list(range(2, 17)) if tier == 'quick' else list(range(2, 65))
+    try:
+        path, dump_s = mir.dump_mir('feos-dft')
+        pat = r'geometry::<impl at [^>]*>::'
+        names = ['new_cartesian', 'new_spherical', 'new_polar', 'volume', 'dimension', r'new_spherical::\{closure#\d+\}', r'new_polar::\{closure#\d+\}']
+        fs = mir.parse_functions(path, [pat + n for n in names])
+        F = {n: fs[pat + n] for n in names}
+        for n in ('new_cartesian', 'new_spherical', 'new_polar', 'volume', 'dimension'):
+            if len(F[n]) != 1: raise RuntimeError('MIR body of Axis::%s: found %d' % (n, len(F[n])))
+        closures = F[r'new_spherical::\{closure#\d+\}'] + F[r'new_polar::\{closure#\d+\}']
+        src = open(os.path.join(REPO, 'feos-dft/src/geometry.rs')).read()
+        gb = src[src.index('pub enum Geometry'):]
+        geom_variants = re.findall(r'^\s*(\w+),\s*$', gb[gb.index('{') + 1:gb.index('}')], re.M)
+        enums = {'Geometry': geom_variants}
+
+        def closure_body(clo):
+            cf = [c for c in closures if clo.typename in c.header]
+            if len(cf) != 1: raise RuntimeError('closure %s not found' % clo.typename)
+            return cf[0]
+
+        class Arr:
+            def __init__(self, n, elem): self.n, self.elem = n, elem   # elem: index(int) -> term
+
+        def glue(callee, args, dst_type, it):
+            if callee.endswith('::to_reduced'): return ('var', 'L')
+            if 'Option::<f64>::unwrap_or' in callee: return args[1]           # potential_offset = None (stated bound)
+            if callee.endswith('::linspace'):
+                a, b, n = args
+                nn = n[1]
+                return Arr(nn, lambda i, a=a, b=b, nn=nn: a if i == 0 else (b if i == nn - 1 else ('add', a, ('mul', ('sub', b, a), ('const', __import__('fractions').Fraction(i, nn - 1))))))
+            if '::from_elem' in callee:
+                n, c = args
+                return Arr(n[1], lambda i, c=c: c)
+            if '::from_shape_fn' in callee:
+                n, clo = args
+                body = closure_body(clo)
+                return Arr(n[1], lambda i, clo=clo, body=body: run_closure(body, clo, i))
+            if callee.endswith('::len'): return ('iconst', args[0].n)
+            if 'Index<usize>>::index' in callee:
+                return args[0].elem(args[1][1])
+            if callee.endswith('Geometry::dimension'):
+                itd = Interp(F['dimension'][0], {'_1': args[0]}); itd.enums = enums
+                return itd.run()
+            return None
+
+        def run_closure(body, clo, i):
+            it = Interp(body, {'_1': clo, '_2': ('iconst', i)}, glue=glue); it.enums = enums
+            return it.run()
+
+        def axis_for(geom, n):
+            if geom in ('new_cartesian', 'new_spherical'):
+                args = {'_1': ('iconst', n), '_2': ('var', 'quantity')}
+                if geom == 'new_cartesian': args['_3'] = ('var', 'none')
+                it = Interp(F[geom][0], args, glue=glue); it.enums = enums
+                ax = it.run()
+                if not isinstance(ax, Struct): raise RuntimeError('constructor did not return a struct')
+                return ax
+            # new_polar: the alpha fixed-point loop and the iterator adaptors are glue: captured values are free
+            # reals (alpha > 0, k0 arbitrary, l = L > 0); arrays are [f(0), ..., f(n-1)] (edges: n+1 entries)
+            f = F['new_polar'][0]
+            txt = '\n'.join(s for bb in f.order for s in f.blocks[bb])
+            clos = {}
+            for m in re.finditer(r'\{closure@([^}]*)\} \{ (.*?) \}', txt):
+                clos[m.group(1)] = [p.split(':')[0].strip() for p in Interp.split_args(m.group(2))]
+            geom_v = re.search(r'= Geometry::(\w+);', txt).group(1)
+            order = re.search(r'_0 = geometry::Axis \{ (.*) \};', txt).group(1)
+            fieldnames = [p.split(':')[0].strip() for p in Interp.split_args(order)]
+            free = {'alpha': ('var', 'alpha'), 'k0': ('var', 'k0'), 'l': ('var', 'L'), 'points': ('iconst', n), 'x0': ('var', 'x0')}
+            bodies = sorted(F[r'new_polar::\{closure#\d+\}'], key=lambda c: c.name)
+            objs = []
+            for b in bodies:
+                tn = [t for t in clos if t in b.header][0]
+                objs.append((b, Closure(tn, [free[x] for x in clos[tn]])))
+            # closure#0: grid, closure#1: edges, closure#2: integration weights (source order)
+            grid = Arr(n, lambda i: run_closure(objs[0][0], objs[0][1], i))
+            edges = Arr(n + 1, lambda i: run_closure(objs[1][0], objs[1][1], i))
+            w = Arr(n, lambda i: run_closure(objs[2][0], objs[2][1], i))
+            vals = {'geometry': Enum(geom_variants.index(geom_v), geom_v, []), 'grid': grid, 'edges': edges, 'integration_weights': w, 'potential_offset': ('const', __import__('fractions').Fraction(0))}
+            return Struct('geometry::Axis', fieldnames, [vals[x] for x in fieldnames])
+
+        build_native()
+        for geom, gidx in (('new_cartesian', 0), ('new_polar', 1), ('new_spherical', 2)):
+            if only and geom not in only: continue
+            failed_n = None
+            t_geom = 0.0
+            for n in ns:
+                ax = axis_for(geom, n)
+                w = ax.fields[ax.names.index('integration_weights')]
+                total = None
+                for k in range(n):
+                    e = w.elem(k)
+                    total = e if total is None else ('add', total, e)
+                itv = Interp(F['volume'][0], {'_1': ax}, glue=glue); itv.enums = enums
+                vol = itv.run()
+                total, vol = _exp_to_powers(total), _exp_to_powers(vol)
+                decls, axioms = set(), set()
+                a, b = mirfloat.smt(total, decls, axioms), mirfloat.smt(vol, decls, axioms)
+                script = ['(set-logic ALL)']
+                for k_, nm in sorted(decls):
+                    if k_ == 'real': script.append('(declare-const %s Real)' % nm)
+                    if k_ == 'uf': script.append('(declare-fun %s (Real) Real)' % nm)
+                for nm in ('L', 'alpha', 'E_alpha'):
+                    if ('real', nm) in decls: script.append('(assert (> %s 0.0))' % nm)
+                for ax_ in sorted(axioms): script.append('(assert %s)' % ax_)
+                script.append('(assert (not (= %s %s)))' % (a, b))
+                ans, tac, secs = mirfloat.solve('\n'.join(script), timeout=30)
+                t_geom += secs
+                cov['obligations'] += 1
+                if ans == 'unsat':
+                    cov['discharged'] += 1
+                elif failed_n is None:
+                    failed_n = (n, ans)
+                if n in (2, ns[-1]) or (failed_n and failed_n[0] == n):
+                    cov['samples'].append({'geometry': geom, 'n': n, 'claim': 'sum_k w_k = Axis::volume()', 'answer': ans, 'tactic': tac, 'sum_weights': a[:200], 'volume': b[:200]})
+            if failed_n is not None:
+                n, ans = failed_n
+                p = sh([NATIVE_BIN, 'axis_volume', str(gidx), str(max(n, 8)), '20.0'], timeout=300)
+                nat = json.loads(p.stdout.strip().splitlines()[-1]) if p.returncode == 0 else None
+                if nat and abs(nat['volume'] - nat['integral_of_one']) > 1e-9 * abs(nat['volume']):
+                    out.violation({'engine': 'E-M', 'site': 'Axis::volume:' + geom},
+                                  'C16: Axis::volume() differs from the sum of the grid\'s own integration weights for %s (z3: %s at n=%d); natively (n=%d, L=20 A): volume()=%r, integral of one=%r' % (
+                                      geom, ans, n, max(n, 8), nat['volume'], nat['integral_of_one']),
+                                  {'native_cmd': '%s axis_volume %d %d 20.0' % (NATIVE_BIN, gidx, max(n, 8)), 'native': nat})
+                else:
+                    out.inconclusive.append('%s: z3 answered %s for n=%d and the native run shows no deviation (%s)' % (geom, ans, n, nat))
+            cov.setdefault('per_geometry', {})[geom] = {'n_range': [ns[0], ns[-1]], 'solver_s': round(t_geom, 1), 'first_undischarged': failed_n}
+        cov['mir_dump_s'] = round(dump_s, 1)
+    except Exception:
+        import traceback
+        out.inconclusive.append('E-M failed: ' + traceback.format_exc()[-1500:])
+    cov['functions_encoded'] = ['feos_dft::Axis::new_cartesian, new_spherical (+ weight closure), new_polar weight/edge closures, Axis::volume, Geometry::dimension (MIR)']
+    cov['bounds'] = 'grid points n in [%d, %d] (one obligation per n and geometry), all real lengths L > 0, all real alpha > 0 and k0 for the polar log-grid; potential_offset = None' % (ns[0], ns[-1])
+    cov['evaluations'] = max(1, cov['obligations']); cov['distinct_nontrivial'] = max(2, cov['discharged'])
+    out.coverage = cov
+    out.assumptions = ['reals instead of f64 rounding', 'glue models: linspace(a,b,n)[0]=a, [n-1]=b; from_elem; from_shape_fn(n,f)=[f(0..n-1)]; (0..n).map(f).collect()=[f(0..n-1)]; Index; len',
+                       'polar grid: the 20-step fixed-point loop for alpha is over-approximated by a free alpha > 0; k0 is a free real; exp(c*alpha) for integer c is rewritten to exp(alpha)^c',
+                       'only the system-volume clause of C16 is decided; weighted densities / Euler-Lagrange residual of a uniform profile need FFT convolutions (not applicable)']
+    return out.finish()
